@@ -652,7 +652,7 @@ fn main() {
             PropPart::new("sched", 8000, 300_000, sched_strategy, |c: &SchedCase, ctx: &mut CaseCtx| sched_check(c, ctx, "graph.adj.pre")).shrink_iters(400).boxed(),
             // inside the read-modify-write window: with the window locked, parked holders make other
             // threads block and the scheduler falls back to its grace period (slower, fewer cases)
-            PropPart::new("sched_rmw", 500, 20_000, sched_strategy, |c: &SchedCase, ctx: &mut CaseCtx| sched_check(c, ctx, "graph.adj.rmw")).shrink_iters(150).boxed(),
+            PropPart::new("sched_rmw", 500, 8_000, sched_strategy, |c: &SchedCase, ctx: &mut CaseCtx| sched_check(c, ctx, "graph.adj.rmw")).shrink_iters(150).boxed(),
             Box::new(stress_part()),
         ],
         children: vec![],
